@@ -1,7 +1,10 @@
 import Dasp.Driver.Loop
+import Dasp.Driver.Window
 open Dasp.Driver
 
--- stub: replaced when property C20 is wired in
 def main : IO Unit := runDriver fun
+  | "fn" :: rest => Win.fnLine rest
+  | "win" :: rest => Win.winLine rest
+  | "wdr" :: rest => Win.wdrLine rest
   | [] => ""
   | _ => "bad-op"
